@@ -256,6 +256,19 @@ class PlanEngine(Engine):
 
     # -- oracle -----------------------------------------------------------------------
     @staticmethod
+    def _dup_kernel_configured(scenario):
+        """the duplicated kernel has its own config entry or is named in some ignore/block/disable list"""
+        cfg = scenario['cfg']
+        dk = set(scenario['dup_kernels'])
+        if any(k.split('#')[-1] in dk for k in cfg['routines']):
+            return True
+        for rc in list(cfg['routines'].values()) + [cfg['default']]:
+            for key in ('ignore', 'block', 'disable'):
+                if any(x.split('#')[-1] in dk for x in rc.get(key, [])):
+                    return True
+        return False
+
+    @staticmethod
     def _units_in_original(scenario, written_name):
         mode = scenario['mode'].replace('-', '_')
         m = re.match(rf'(.*)\.{re.escape(mode)}\.[^.]+$', written_name)
@@ -344,7 +357,7 @@ class PlanEngine(Engine):
             elif not (a - w) and ('Dependency' in pipe or 'ModuleWrap' in pipe) and (w - a):
                 sig = 'append-differs:rename-pipeline-conversion-writes-unplanned-file'
             elif 'Duplicate' in pipe and not any('_dupl.' in n for _, n in (a ^ w)) and \
-                    any(k.split('#')[-1] in scenario['dup_kernels'] for k in scenario['cfg']['routines']):
+                    self._dup_kernel_configured(scenario):
                 sig = 'append-differs:duplicated-kernel-has-item-config'
             run.violate('append-differs', f'plan says append {sorted(a - w)[:4]} which the conversion did not write; '
                                           f'conversion wrote {sorted(w - a)[:4]} which the plan does not list', sig=sig)
